@@ -144,6 +144,7 @@ type Store struct {
 	noLift  bool
 	invPairs   [][2]*Term // declared inverse pairs (Int symbols), see bv2int.go
 	invModulus *big.Int
+	invDefs    map[*Term]bool
 }
 
 type ufDecl struct {
@@ -152,7 +153,7 @@ type ufDecl struct {
 }
 
 func NewStore() *Store {
-	return &Store{tab: map[string]*Term{}, ufs: map[string]ufDecl{}, usorts: map[string]bool{}, secrets: map[string]bool{}}
+	return &Store{invDefs: map[*Term]bool{}, tab: map[string]*Term{}, ufs: map[string]ufDecl{}, usorts: map[string]bool{}, secrets: map[string]bool{}}
 }
 
 var bigOne = big.NewInt(1)
@@ -602,6 +603,15 @@ func (st *Store) bvBin(op Op, a, b *Term) *Term {
 		}
 		if a == b {
 			return a
+		}
+		// and(zext(y), c): only the low bits of c matter
+		if a.Op == OZext && b.IsConst() {
+			iw := a.Args[0].S.W
+			return st.Zext(st.bvBin(OBVAnd, a.Args[0], st.BVConst(b.Val, iw)), w-iw)
+		}
+		if b.Op == OZext && a.IsConst() {
+			iw := b.Args[0].S.W
+			return st.Zext(st.bvBin(OBVAnd, b.Args[0], st.BVConst(a.Val, iw)), w-iw)
 		}
 		// and with low mask 2^k-1 -> zext(extract)
 		if m := lowMaskBits(a); m > 0 && m < w {
